@@ -248,7 +248,9 @@ def write_csv(data, filename, comment,
         # If compress argument, create a zip file
         arcname = str(PurePosixPath(filename))
         if compress:
-            arcname = filename.name
+            # member name expected by read_csv (<stem>.csv), whatever
+            # the extension of the file name given by the caller
+            arcname = f"{filename.stem}.csv"
             archive = zipfile.ZipFile(filename_full, mode="w",
                                       compression=zipfile.ZIP_DEFLATED)
 
